@@ -27,7 +27,7 @@ class P(vlib.Prop):
         "cachedParseVersion / cachedResolvePackageNameVersionPin are memo tables of pure functions; the model parses each string once when the resolver is built",
         "version parsing, comparison and constraint parsing are the C03 model (Model/Version.v), tied to version.go by C03's own check",
     )
-    level_text = ("Theorems c02_nodup, c02_members_from_universe, c02_failure_is_error, c02_termination hold for every universe, world, initial disqualification set and "
+    level_text = ("Theorems c02_nodup, c02_members_from_universe, c02_failure_is_error, c02_termination, c02_no_panic hold for every universe, world, initial disqualification set and "
                   "every install_if schedule (unbounded) of an executable model of repo.go + filterPackages; c02_validator_decides proves the validator that is run on the "
                   "implementation's results; c02_closed is REFUTED by five kernel-checked witnesses (findings C02-F1..F5, each replayed on the real code) and "
                   "c02_closed_partial proves the part that holds inside the envelope; the model is tied to the code by differential comparison of ordered install lists.")
